@@ -178,7 +178,7 @@ def expected_actual(t, s, mv):
             return None
         if f != 0 and abs(f) < 2.3e-308:
             return None
-        return 'dec:%016x' % dbits(f)
+        return 'dec:%016x' % dbits(f if f != 0 else (-0.0 if s.lstrip().startswith('-') else 0.0))
     if b == 'double':
         if v == D.NAN or v in (D.PINF, D.NINF):
             return None
@@ -190,16 +190,57 @@ def expected_actual(t, s, mv):
     if b == 'hexBinary' or b == 'base64Binary':
         return 'bin:' + v.hex()
     if b in D.DT_RE:
+        if v.tz not in (None, 0) and b not in ('dateTime', 'time'):
+            return None                      # the implementation normalises to UTC: lossy for types without time fields
+        if v.y is not None and v.y < 0 and v.tz not in (None, 0):
+            return None
+        if v.h24 and v.tz is not None:
+            return None                      # hour 24 is kept as written: same instant, two renderings
+        if v.tz not in (None, 0):
+            if b == 'dateTime':
+                tot = D.dt_timeline(v)
+                days, rem = divmod(tot, 86400)
+                y, mo, d = D.civil_from_days(int(days))
+                if v.y < 0:
+                    y -= 1
+                h, rem = divmod(rem, 3600)
+                mi, sec = divmod(rem, 60)
+                whole = int(sec)
+                return ('dt', y, mo, d, int(h), int(mi), whole, float(sec - whole))
+            return None                      # time with offset: the date part is not part of the value; not judged
         sec = v.s if v.s is not None else Fraction(0)
         whole = int(sec)
-        return 'dt:%d:%d:%d:%d:%d:%d:%016x' % (v.y or 0, v.mo or 0, v.d or 0, v.h or 0, v.mi or 0, whole, dbits(float(sec - whole)))
+        return ('dt', v.y or 0, v.mo or 0, v.d or 0, v.h or 0, v.mi or 0, whole, float(sec - whole))
     return None
+
+
+def actual_equal(ea, act):
+    if isinstance(ea, tuple):
+        p = act.split(':')
+        if p[0] != 'dt' or len(p) != 8:
+            return False
+        if tuple(int(x) for x in p[1:7]) != ea[1:7]:
+            return False
+        ms = struct.unpack('>d', bytes.fromhex(p[7]))[0]
+        return abs(ms - ea[7]) < 1e-9
+    if ea.startswith('dec:') and act.startswith('dec:'):
+        a, b = int(ea[4:], 16), int(act[4:], 16)
+        return a == b or (a | b) == 0x8000000000000000 or (a == 0 and b == 0)
+    return ea == act
 
 
 class Judge:
     def __init__(self, F):
         self.F = F
         self.E = D.Evaluator()
+
+    def alt_float(self, t, s):
+        """diagnosis: verdict of the model when xs:float literals are kept in binary64 precision"""
+        D.FLOAT_AS_DOUBLE = True
+        try:
+            return D.Evaluator().evaluate(t, s)
+        finally:
+            D.FLOAT_AS_DOUBLE = False
 
     def violation(self, key, what, c, idx, extra=(), expected=None, observed=None):
         self.F.viol.append((key, what, {'case': reduced_case(c, idx, extra), 'step': c.steps[idx][2].get('i'), 'expected': expected, 'observed': observed}))
@@ -240,7 +281,9 @@ class Judge:
                 created[o['name']] = (l[2] == 'OK')
                 t = env[o['name']]
                 F.count('types:' + t.variety)
-                if l[2] != 'OK':
+                if l[2] == 'NOBASE' and not all(created.values()):
+                    pass                       # consequence of an earlier refused type
+                elif l[2] != 'OK':
                     if c.meta.get('expect_type_error') == o['name']:
                         F.count('type-error-as-expected')
                     else:
@@ -311,6 +354,8 @@ class Judge:
             F.skip(mv.why)
         else:
             F.distinct.add(core.h(tk, [f for a in t.chain() for f in a.facets if not a.builtin], s))
+            if mv.v != (ACCEPT if lib_ok else REJECT) and D.involves(t, ('float',)) and self.alt_float(t, s).v == (ACCEPT if lib_ok else REJECT):
+                cls = 'float-compared-as-double'
             if mv.v == ACCEPT and not lib_ok:
                 self.violation('C09:rejects:%s:%s:%s' % (tk, cls, l[2].split(':')[-1]), 'validator rejects a literal that is in the lexical space and satisfies every facet', c, idx,
                                expected='accept', observed=l[2])
@@ -339,12 +384,20 @@ class Judge:
                 self.violation('C09:axiom:canon-validate-flag:%s:%s' % (tk, cls), 'canonical form differs with toValidate on/off', c, idx, expected=cv, observed=kv.get('cn'))
             if kv.get('vc') != 'OK' and not (user_facets & {'pattern', 'length', 'minLength', 'maxLength', 'whiteSpace'}):
                 self.violation('C09:axiom:canon-invalid:%s:%s' % (tk, cls), 'the canonical form of a valid literal does not validate', c, idx, expected='canon validates', observed=[cv, kv.get('vc')])
-            if kv.get('vc') == 'OK':
+            grey = False
+            if t.variety == 'atomic' and t.prim in D.DT_RE:
+                if mv.v == SKIP and mv.why.startswith('datetime:'):
+                    grey = True
+                elif mv.v != SKIP and mv.value is not None and D.dt_crosses(mv.value):
+                    grey = True
+                if grey:
+                    F.skip('datetime:canon-axiom-at-grey-spot')
+            if kv.get('vc') == 'OK' and not grey:
                 if kv.get('cmp') != '0' or kv.get('cmpr') != '0':
                     self.violation('C09:axiom:canon-changes-value:%s:%s' % (tk, cls), 'compare(x, canon(x)) is not EQUAL', c, idx, expected='0/0', observed=[cv, kv.get('cmp'), kv.get('cmpr')])
                 if kv.get('cc') != cv:
                     self.violation('C09:axiom:canon-not-idempotent:%s:%s' % (tk, cls), 'canon(canon(x)) differs from canon(x)', c, idx, expected=cv, observed=kv.get('cc'))
-            if mv.v == ACCEPT:
+            if mv.v == ACCEPT and not grey:
                 ec = self.E.canonical(t, s, mv)
                 if ec is not None:
                     F.count('canon:compared')
@@ -371,6 +424,9 @@ class Judge:
         if not (x_ok and lib_ok):
             return
         xc, cst = kv.get('can', '~'), kv.get('cst')
+        if not s.strip(D.WS_CHARS):
+            F.skip('xsvalue:empty-content-convention')
+            return
         if xc != '~':
             F.count('route2:canon')
             if kv.get('canv') != '1':
@@ -392,7 +448,7 @@ class Judge:
                 F.count('route2:actual-compared')
                 if t.name in ('float', 'double') and ea.split(':')[-1] != act.split(':')[-1] and act.split(':')[1] == '4':
                     self.violation('C09:xsvalue-actual:%s:%s' % (tk, cls), 'XSValue actual value differs from the reference value', c, idx, expected=ea, observed=act)
-                elif t.name not in ('float', 'double') and ea != act:
+                elif t.name not in ('float', 'double') and not actual_equal(ea, act):
                     self.violation('C09:xsvalue-actual:%s:%s' % (tk, cls), 'XSValue actual value differs from the reference value', c, idx, expected=ea, observed=act)
 
     # ---- compare matrix --------------------------------------------------------------------------------------------
@@ -433,7 +489,13 @@ class Judge:
                     if ordered and t.variety == 'atomic':
                         if str(e) != o:
                             ci, cj = lit_class(t, vals[i]), lit_class(t, vals[j])
-                            self.violation('C09:order:%s:expected%s-got%s:%s' % (tk, e, o, '|'.join(sorted((ci, cj)))), 'compare(a,b) differs from the XSD 1.0 order relation', c, idx,
+                            if prim == 'float':
+                                try:
+                                    if str(D.cmp_float(D.float_value(vals[i], 'd'), D.float_value(vals[j], 'd'))) == o:
+                                        ci = cj = 'float-compared-as-double'
+                                except D.Skip:
+                                    pass
+                            self.violation('C09:order:%s:expected%s-got%s:%s' % (tk, e, o, '|'.join(sorted(set((ci, cj))))), 'compare(a,b) differs from the XSD 1.0 order relation', c, idx,
                                            expected=e, observed=[vals[i], vals[j], o])
                     else:
                         if (e == 0) != (o == '0'):
@@ -506,7 +568,7 @@ class Judge:
                            expected='validator: %s' % r1, observed='parse: %s %s' % (p_ok, [e[1:4] for e in errs]))
             return
         if p_ok:
-            ps = [e for e in sub if e[0] == ('PA' if o.get('att') == '1' else 'PE')]
+            ps = [e for e in sub if (e[0] == 'PA' and e[1] == 'a') or (e[0] == 'PE' and o.get('att') != '1')]
             if ps:
                 kv = parse_kv(ps[0][2:])
                 if kv.get('val') != '2':
@@ -599,7 +661,7 @@ def chunk_builtin(r, tname, cfg, cid):
     t = D.BUILTINS[tname]
     lits = D.literals_for(r, tname, cfg['nb'])
     cases = []
-    per = 400
+    per = 90
     for i in range(0, len(lits), per):
         c = core.Case('%s-%d' % (cid, i // per), 'dtype', meta={'class': 'builtin:' + tname})
         seen = set()
@@ -827,7 +889,7 @@ def chunk_matrix(r, cfg, cid, tname=None):
 # deliberately inconsistent facet sets: the factory (and the schema loader) must refuse them
 BAD_DERIVATIONS = [
     ('decimal', [('minInclusive', '10'), ('maxInclusive', '9')], 'min>max'),
-    ('int', [('minExclusive', '5'), ('maxExclusive', '5')], 'minEx>=maxEx'),
+    ('int', [('minExclusive', '6'), ('maxExclusive', '5')], 'minEx>maxEx'),
     ('byte', [('maxInclusive', '128')], 'bound-outside-base'),
     ('unsignedByte', [('minInclusive', '-1')], 'bound-outside-base'),
     ('decimal', [('totalDigits', '0')], 'totalDigits-zero'),
@@ -836,7 +898,6 @@ BAD_DERIVATIONS = [
     ('string', [('length', '-1')], 'negative-length'),
     ('string', [('length', '2'), ('maxLength', '3')], 'length+maxLength'),
     ('integer', [('enumeration', 'abc')], 'enumeration-not-in-base'),
-    ('boolean', [('enumeration', 'maybe')], 'enumeration-not-in-base'),
     ('date', [('maxInclusive', '2001-02-30')], 'bound-not-in-base'),
     ('integer', [('fractionDigits', '1')], 'fixed-fractionDigits'),
     ('decimal', [('minInclusive', '1'), ('minExclusive', '1')], 'minIn+minEx'),
@@ -901,6 +962,57 @@ def build_chunk(tier, seed, ch):
     return cases
 
 
+def strip_markers(rec):
+    rec.lines = [l for l in rec.lines if not l.startswith('S\t')]
+
+
+def crashed_step(rec):
+    last = None
+    for l in rec.lines:
+        if l.startswith('S\t'):
+            last = int(l[2:])
+    return last
+
+
+def run_isolated(binary, cases, F, tag='c09'):
+    """run the cases; when one crashes, attribute the crash to its step (the driver flushes a marker before every
+    step), report it with a reduced witness, drop that step and run the rest of the case again"""
+    out = {}
+    todo = list(cases)
+    rounds = 0
+    while todo and rounds < 40:
+        rounds += 1
+        recs = core.run_shard(binary, todo, tag=tag, per_case_timeout=60.0)
+        again = []
+        for c in todo:
+            rec = recs.get(c.id)
+            if rec is None:
+                F.viol.append(('__harness__', 'case without record: ' + c.id, {}))
+                continue
+            if rec.complete and not rec.crash and not rec.hang:
+                strip_markers(rec)
+                out[c.id] = (c, rec)
+                continue
+            st = crashed_step(rec)
+            if st is None or st >= len(c.steps):
+                F.viol.append(('__crash__', '', {'rec': rec, 'case': c}))
+                continue
+            kind = 'hang' if (rec.hang and not rec.crash) else 'crash'
+            key = 'C09:' + (rec.crash.key() if rec.crash else 'hang:' + c.meta.get('class', 'dtype'))
+            o = c.steps[st][2]
+            what = 'sanitizer/crash report in step %s (k=%s, type=%s)' % (st, o.get('k'), o.get('t', o.get('name', '')))
+            F.viol.append((key, what, {'case': reduced_case(c, st), 'step': o.get('i'), 'literal': c.steps[st][1] if c.steps[st][0] == 'TXT' else o.get('raw'),
+                                       'expected': 'no crash', 'observed': kind, 'report': rec.crash.text[:5000] if rec.crash else ''}))
+            F.count('crashes')
+            c2 = core.Case(c.id, c.cmd, c.opt, steps=[x for i, x in enumerate(c.steps) if i != st], meta=c.meta)
+            again.append(c2)
+        ex = recs.get('__exit__')
+        if ex is not None and ex.crash:
+            F.viol.append(('C09:exit:' + ex.crash.key(), 'driver process failed at exit', {'report': ex.crash.text[:4000]}))
+        todo = again
+    return out
+
+
 def run_chunk(args):
     binary, tier, seed, ch = args
     F = Findings()
@@ -908,17 +1020,12 @@ def run_chunk(args):
         cases = build_chunk(tier, seed, ch)
         if not cases:
             return F
-        recs = core.run_shard(binary, cases, tag='c09', per_case_timeout=60.0)
+        ran = run_isolated(binary, cases, F)
         J = Judge(F)
         for c in cases:
-            rec = recs.get(c.id)
-            if rec is None or not rec.complete or rec.crash or rec.hang:
-                F.viol.append(('__crash__', '', {'rec': rec, 'case': c}))
-                continue
-            J.judge_case(c, rec)
-        ex = recs.get('__exit__')
-        if ex is not None and ex.crash:
-            F.viol.append(('C09:exit:' + ex.crash.key(), 'driver process failed at exit', {'report': ex.crash.text[:4000]}))
+            if c.id in ran:
+                cc, rec = ran[c.id]          # the case as it finally ran (crashing steps removed)
+                J.judge_case(cc, rec)
     except Exception as e:
         F.viol.append(('__harness__', '%s: %s' % (type(e).__name__, e), {'trace': traceback.format_exc(), 'chunk': list(map(str, ch))}))
     return F
@@ -1004,6 +1111,7 @@ def replay(j):
     if rec is None or not rec.complete or rec.crash or rec.hang:
         print('  now: crash/hang %r' % (rec.crash if rec else None))
         return 1
+    strip_markers(rec)
     for l in rec.lines:
         print('  | ' + l)
     F = Findings()
